@@ -187,9 +187,12 @@ def main():
             g = obj.values_orders[f]
             if obj.str_default in g.values():
                 col = list(Xp[f])
+                # prefer values that are NEW for f but known modalities of the other qualitative columns
+                own = set(v for v in g.values() if isinstance(v, str))
+                new_here = [v for v in vocab if v not in own] or vocab
                 for i in range(len(col)):
                     if i % 7 == 3:
-                        col[i] = vocab[(i // 7) % len(vocab)]
+                        col[i] = new_here[(i // 7) % len(new_here)]
                 Xp[f] = pd.Series(col, dtype=object)
                 injected.append(f)
         out["probe_injected"] = injected
